@@ -9,14 +9,17 @@ for d in sorted(glob.glob(os.path.join(V, 'seeded', 'C*'))):
     except Exception:
         continue
     det = m.get('detection', {})
-    also = m.get('also_detected_by', [])
+    also = list(m.get('also_detected_by', [])) + ['`%s`' % k for k, v in m.get('cross_detection', {}).items() if v.get('detected')]
+    first_missed = m.get('first_run_missed')
     summ = re.sub(r'\s+', ' ', str(m.get('summary', '')))[:170]
     needs = re.sub(r'\s+', ' ', str(m.get('needs', '')))[:130]
     rows.append('| %s | %s | %s | %s | %s |' % (
         os.path.basename(d), summ.replace('|', '/'), needs.replace('|', '/'),
-        ('**caught** by `%s`' % det.get('check', '?').replace('./check ', '').replace(' --tier quick', '')) if det.get('detected')
+        ('**caught** by `%s`%s' % (det.get('check', '?').replace('./check ', '').replace(' --tier quick', ''),
+                                   ' (after the check was strengthened; missed at first)' if first_missed else '')) if det.get('detected')
         else ('MISSED by %s' % det.get('check', '?') if det else 'not run'),
         ', '.join(also)))
+rows = [r.replace('\n', ' ').replace('\r', ' ') for r in rows]
 table = '| seed | change | needs | own check (quick tier) | also caught by |\n|---|---|---|---|---|\n' + '\n'.join(rows)
 p = os.path.join(V, 'DESIGN.md')
 s = open(p).read()
